@@ -5,6 +5,7 @@ programs), specification: IpcHub/Spec/Interleave.lean, lemmas: IpcHub/Lemmas/Wri
 -/
 import IpcHub.Lemmas.Writers
 import IpcHub.Lemmas.WritersLts
+import IpcHub.Lemmas.WritersSound
 import IpcHub.Model.WritersInst
 namespace IpcHub.Props.C13
 open IpcHub.Writers IpcHub.InterleaveSpec
@@ -226,6 +227,43 @@ theorem c13_stream_parses (jobs : Nat → List Job) (unit : Job → InterleaveSp
   simp only [List.mem_map] at hu
   obtain ⟨p, hp, rfl⟩ := hu
   exact (hunit p.1 p.2 (hmem p hp)).1
+
+/-- The verdict the check applies to the bytes a real session sent is a SOUND reading of the
+    statement: whenever it says "ok", the stream IS a concatenation of complete units — complete
+    interleaved frames (payload within the 16-bit length field) and complete RTSP responses — and
+    the frames among them are packets that were handed to the media goroutine, in that order. -/
+theorem c13_oracle_sound (s : List UInt8) (frames : List (UInt8 × List UInt8)) (h : judgeStream s frames = "ok") :
+    ∃ us : List InterleaveSpec.Unit, s = (us.map InterleaveSpec.Unit.bytes).flatten ∧ (∀ u ∈ us, u.wf = true) ∧
+      isSubseq (framesOf us) frames = true := by
+  unfold judgeStream at h
+  split at h
+  · exact absurd h (by decide)
+  · rename_i us hp
+    split at h
+    · rename_i hsub
+      obtain ⟨h1, h2⟩ := parseStream_sound _ _ _ hp
+      exact ⟨us, h1, h2, hsub⟩
+    · exact absurd h (by decide)
+
+/-- … and a COMPLETE one: every concatenation of complete units whose frames are delivered packets
+    (in order) gets the verdict "ok" — the oracle raises no alarm on a stream that satisfies the
+    statement. -/
+theorem c13_oracle_complete (us : List InterleaveSpec.Unit) (frames : List (UInt8 × List UInt8))
+    (hw : ∀ u ∈ us, u.wf = true) (hf : isSubseq (framesOf us) frames = true) :
+    judgeStream (us.map InterleaveSpec.Unit.bytes).flatten frames = "ok" := by
+  unfold judgeStream
+  rw [c13_stream_of_units us hw]
+  simp [hf]
+
+/-- non-vacuity of `c13_oracle_sound` / `c13_oracle_complete` (tests on literals): a frame and a response
+    are accepted; a response spliced between a frame prefix and the body is a torn frame (the bytes
+    still parse, into a frame that was never delivered); a body without its prefix is a torn stream. -/
+example :
+    let resp : List UInt8 := [82, 84, 83, 80, 47, 49, 46, 48, 32, 50, 48, 48, 32, 79, 75, 13, 10, 13, 10]
+    judgeStream (encodeFrame 0 [1, 2, 3] ++ resp) [(0, [1, 2, 3])] = "ok" ∧
+    judgeStream ([0x24, 0, 0, 22] ++ resp ++ [1, 2, 3]) [(0, [1, 2, 3])] = "torn-frame" ∧
+    judgeStream (resp ++ [1, 2, 3]) [(0, [1, 2, 3])] = "torn-stream" := by
+  decide
 
 /-- On the WebSocket transports the consumer of the current source tree sends, for every packet,
     at most one message, and every message it sends is exactly one complete interleaved frame. -/
